@@ -4,8 +4,8 @@ import common
 from common import tlc, tlc_ok, tlc_must_fail, build_driver, run_driver, judge, ToolError, log
 
 TIERS = {
-    "quick":    dict(mc="MC_Eval_quick.cfg", parts=[(4, 1, 2, 12), (5, 5, 1, 3)], rand=6000, maxlen=25),
-    "thorough": dict(mc="MC_Eval_thorough.cfg", parts=[(5, 1, 2, 12), (6, 6, 1, 2)], rand=150000, maxlen=60),
+    "quick":    dict(mc="MC_Eval_quick.cfg", parts=[(4, 1, 2, 12), (5, 5, 1, 3)], chains=3, rand=6000, maxlen=25),
+    "thorough": dict(mc="MC_Eval_thorough.cfg", parts=[(5, 1, 2, 12), (6, 6, 1, 2)], chains=4, rand=150000, maxlen=60),
 }
 
 
@@ -44,6 +44,10 @@ def run(prop, tier, seed, work, ev):
         gen(work, "sent", c, n=n, lo=lo, assign=assign, ndocs=ndocs)
         rejects += run_and_judge("sentences of %d..%d tokens x %d payload assignment(s) x %d documents" % (lo, n, assign, ndocs),
                                  c, work, ev, drv, docs=c + ".docs")
+    c = work.path("chains.cases")
+    gen(work, "chains", c, n=t["chains"])
+    rejects += run_and_judge("operator chains: primary + every sequence of <= %d postfix operators x 3 nested documents" % t["chains"],
+                             c, work, ev, drv, docs=c + ".docs")
     params = work.path("rand.in")
     e = dict(os.environ, GEN_MAXLEN=str(t["maxlen"]))
     subprocess.check_call([drv, "gen", "eval", str(seed), str(t["rand"]), params], env=e)
